@@ -1,5 +1,256 @@
 //! Verification hook ops for module `edits` (see mod.rs for the protocol).
+//!
+//! Text reaches the Lean model pre-segmented. A *line field* is one protocol field
+//!   `L<cluster>,<cluster>,...;<s>-<e>,<s>-<e>,...`
+//! with `<cluster>` = `<hex utf8>:<display width>:<1 if all whitespace else 0>` (the extended
+//! grapheme clusters of the whole line) and the regex match spans in cluster indices. Ops below
+//! accept such fields where the model needs them and ignore them: the implementation works on
+//! the raw line and the regex.
+//!
+//! edits.domain <xregex> <xline>
+//!     -> ok <L-field> <additive> <wsclean> <aligned> <segsame> <nlclean>
+//! edits.tokenize <xregex> <xline> [<L>]            -> ok <xtoken> <xtoken> ...
+//! edits.align <n> <xtok>*n <m> <xtok>*m            -> ok <ops over N,D,I> <cost of final cell>
+//! edits.annotate <xregex> <xminus> <xplus> <noop_del> <del> <noop_ins> <ins> [<L> <L>]
+//!     -> ok M=<sections> P=<sections> D=<f64 bits, hex>
+//! edits.infer <xregex> <max> <naive> <del> <ins> <m> (<xline> <noop tag> <L>)*m <p> (<xline> <noop tag> <L>)*p
+//!     -> ok A=<i|->:<j|->,... M=<n>;<sections>|... P=<n>;<sections>|... D=<i>:<j>:<f64 bits>,... H=<01..>:<01..>
+//! <sections> = `<tag>:<hex text>` joined by `,`.
+use regex::Regex;
+use unicode_segmentation::UnicodeSegmentation;
+use unicode_width::UnicodeWidthStr;
 
-pub fn handle(op: &str, _args: &[&str]) -> Result<String, String> {
-    Err(format!("unknown op: edits.{op}"))
+use super::{hex, num, unhex};
+use crate::align;
+use crate::edits;
+use crate::minusplus::*;
+
+fn bare_hex(s: &str) -> String {
+    hex(s)[1..].to_string()
+}
+
+fn regex(f: &str) -> Result<Regex, String> {
+    Regex::new(&unhex(f)?).map_err(|e| e.to_string())
+}
+
+fn sections(v: &[(usize, &str)]) -> String {
+    v.iter()
+        .map(|(t, s)| format!("{}:{}", t, bare_hex(s)))
+        .collect::<Vec<_>>()
+        .join(",")
+}
+
+fn domain(re: &Regex, line: &str) -> String {
+    let clusters: Vec<(usize, &str)> = line.grapheme_indices(true).collect();
+    let mut bounds: Vec<usize> = clusters.iter().map(|(i, _)| *i).collect();
+    bounds.push(line.len());
+    let widths: Vec<usize> = clusters.iter().map(|(_, g)| g.width()).collect();
+    let cl = clusters
+        .iter()
+        .zip(&widths)
+        .map(|((_, g), w)| {
+            format!(
+                "{}:{}:{}",
+                bare_hex(g),
+                w,
+                if g.trim().is_empty() { 1 } else { 0 }
+            )
+        })
+        .collect::<Vec<_>>()
+        .join(",");
+    let wsclean = clusters.iter().all(|(_, g)| {
+        let n = g.chars().filter(|c| c.is_whitespace()).count();
+        n == 0 || n == g.chars().count()
+    });
+    let nlclean = clusters
+        .iter()
+        .all(|(_, g)| !g.contains('\n') || *g == "\n");
+    let idx = |b: usize| bounds.binary_search(&b).ok();
+    let mut aligned = true;
+    let mut segsame = true;
+    let mut spans = Vec::new();
+    let mut offset = 0;
+    let mut check_gap = |from: usize, to: usize, aligned: &mut bool, segsame: &mut bool| {
+        if from > to {
+            return;
+        }
+        match (idx(from), idx(to)) {
+            (Some(a), Some(b)) => {
+                let sub: Vec<&str> = line[from..to].graphemes(true).collect();
+                let whole: Vec<&str> = clusters[a..b].iter().map(|(_, g)| *g).collect();
+                if sub != whole {
+                    *segsame = false;
+                }
+            }
+            _ => *aligned = false,
+        }
+    };
+    for m in re.find_iter(line) {
+        match (idx(m.start()), idx(m.end())) {
+            (Some(a), Some(b)) => spans.push(format!("{a}-{b}")),
+            _ => aligned = false,
+        }
+        check_gap(offset, m.start(), &mut aligned, &mut segsame);
+        offset = m.end();
+    }
+    check_gap(offset, line.len(), &mut aligned, &mut segsame);
+    let mut additive = true;
+    'outer: for i in 0..clusters.len() {
+        let mut sum = 0;
+        for j in i..clusters.len() {
+            sum += widths[j];
+            if line[bounds[i]..bounds[j + 1]].width() != sum {
+                additive = false;
+                break 'outer;
+            }
+        }
+    }
+    let b = |x: bool| if x { 1 } else { 0 };
+    format!(
+        "ok L{};{} {} {} {} {} {}",
+        cl,
+        spans.join(","),
+        b(additive),
+        b(wsclean),
+        b(aligned),
+        b(segsame),
+        b(nlclean)
+    )
+}
+
+fn op_letter(op: align::Operation) -> char {
+    match op {
+        align::Operation::NoOp => 'N',
+        align::Operation::Deletion => 'D',
+        align::Operation::Insertion => 'I',
+    }
+}
+
+fn opt_idx(i: Option<usize>) -> String {
+    match i {
+        Some(i) => i.to_string(),
+        None => "-".to_string(),
+    }
+}
+
+fn f64_field(f: &str) -> Result<f64, String> {
+    f.parse::<f64>().map_err(|e| format!("{f}: {e}"))
+}
+
+pub fn handle(op: &str, args: &[&str]) -> Result<String, String> {
+    match (op, args) {
+        ("domain", [re, line]) => Ok(domain(&regex(re)?, &unhex(line)?)),
+        ("tokenize", [re, line, ..]) => {
+            let re = regex(re)?;
+            let line = unhex(line)?;
+            let toks = edits::verif_tokenize(&line, &re);
+            Ok(format!(
+                "ok {}",
+                toks.iter().map(|t| hex(t)).collect::<Vec<_>>().join(" ")
+            )
+            .trim_end()
+            .to_string())
+        }
+        ("align", _) => {
+            let mut it = args.iter();
+            let mut read = |it: &mut std::slice::Iter<&str>| -> Result<Vec<String>, String> {
+                let n = num(it.next().ok_or("missing count")?)?;
+                (0..n)
+                    .map(|_| unhex(it.next().ok_or("missing token")?))
+                    .collect()
+            };
+            let x = read(&mut it)?;
+            let y = read(&mut it)?;
+            let a = align::Alignment::new(
+                x.iter().map(|s| s.as_str()).collect(),
+                y.iter().map(|s| s.as_str()).collect(),
+            );
+            let ops: String = a.operations().into_iter().map(op_letter).collect();
+            Ok(format!("ok {} {}", ops, a.verif_cost()))
+        }
+        ("annotate", [re, minus, plus, nd, d, ni, i, ..]) => {
+            let re = regex(re)?;
+            let (minus, plus) = (unhex(minus)?, unhex(plus)?);
+            let (am, ap, dist) =
+                edits::verif_annotate(&minus, &plus, &re, num(nd)?, num(d)?, num(ni)?, num(i)?);
+            Ok(format!(
+                "ok M={} P={} D={:016x}",
+                sections(&am),
+                sections(&ap),
+                dist.to_bits()
+            ))
+        }
+        ("infer", [re, max, naive, d, i, rest @ ..]) => {
+            let re = regex(re)?;
+            let (max, naive) = (f64_field(max)?, f64_field(naive)?);
+            let (d, i) = (num(d)?, num(i)?);
+            let mut it = rest.iter();
+            let mut read =
+                |it: &mut std::slice::Iter<&str>| -> Result<(Vec<String>, Vec<usize>), String> {
+                    let n = num(it.next().ok_or("missing count")?)?;
+                    let mut lines = Vec::new();
+                    let mut tags = Vec::new();
+                    for _ in 0..n {
+                        lines.push(unhex(it.next().ok_or("missing line")?)?);
+                        tags.push(num(it.next().ok_or("missing tag")?)?);
+                        it.next().ok_or("missing L field")?;
+                    }
+                    Ok((lines, tags))
+                };
+            let (minus, minus_tags) = read(&mut it)?;
+            let (plus, plus_tags) = read(&mut it)?;
+            let (am, ap, alignment) = edits::infer_edits(
+                minus.iter().map(|s| s.as_str()).collect(),
+                plus.iter().map(|s| s.as_str()).collect(),
+                minus_tags.clone(),
+                d,
+                plus_tags.clone(),
+                i,
+                &re,
+                max,
+                naive,
+            );
+            let homolog = edits::make_lines_have_homolog(&alignment);
+            let mut dists = Vec::new();
+            for (m, p) in &alignment {
+                if let (Some(m), Some(p)) = (m, p) {
+                    // the distance `infer_edits` computed for this pair (same tags as it used)
+                    let (_, _, dist) = edits::verif_annotate(
+                        &minus[*m],
+                        &plus[*p],
+                        &re,
+                        minus_tags[*m],
+                        d,
+                        plus_tags[*p],
+                        i,
+                    );
+                    dists.push(format!("{}:{}:{:016x}", m, p, dist.to_bits()));
+                }
+            }
+            let lines = |v: &Vec<Vec<(usize, &str)>>| {
+                format!(
+                    "{};{}",
+                    v.len(),
+                    v.iter().map(|l| sections(l)).collect::<Vec<_>>().join("|")
+                )
+            };
+            let bits = |v: &Vec<bool>| -> String {
+                v.iter().map(|b| if *b { '1' } else { '0' }).collect()
+            };
+            Ok(format!(
+                "ok A={} M={} P={} D={} H={}:{}",
+                alignment
+                    .iter()
+                    .map(|(m, p)| format!("{}:{}", opt_idx(*m), opt_idx(*p)))
+                    .collect::<Vec<_>>()
+                    .join(","),
+                lines(&am),
+                lines(&ap),
+                dists.join(","),
+                bits(&homolog[Minus]),
+                bits(&homolog[Plus]),
+            ))
+        }
+        _ => Err(format!("unknown op or arity: edits.{op}")),
+    }
 }
